@@ -22,12 +22,13 @@ RULE = (
     "`loop` or an exception/return/break path that was actually taken (marked by the model)."
 )
 RULE += " added since: inner loops whose body reads only loop.parent.*, loop.parent is None at top level, several % except clauses on one % try, and the enable_loop matrix {constructor option on/off} x {<%page enable_loop> absent/True/False} through Template and TemplateLookup. `loop` read inside closures written in a `% for` body (anonymous block, <%call> bodies, nested defs; one and two loop levels; with and without a direct read in the loop body). `loop` read only in tag attributes (call expression, <%ns:def> / <%include> attributes, args=, filter= of <%text> / <%block>, filter arguments). iterables whose text holds colons (slices, dict display, lambda, 'a:b'). generators whose pulls are observable and one that fails on its third pull. hash signs inside string literals of for / if / elif lines."
+RULE += " loops over things that cannot be iterated (None, an int, an object whose __iter__ raises) inside % try, followed by loops that read loop.*."
 ASSUMPTIONS = [
     "the dual Python emission and the loop-record class in checks/c03.py state the intended semantics",
     "`% else:` after `% try:` is not generated (Mako lists only except/finally as try continuations)",
 ]
 MIN_NONTRIVIAL = 300
-REQUIRED_COUNTERS = ["renders_compared", "loop_attribute_reads", "exception_paths", "return_paths", "break_paths", "enable_loop_variants", "code_compiles", "loop_closure_renders"]
+REQUIRED_COUNTERS = ["renders_compared", "loop_attribute_reads", "exception_paths", "return_paths", "break_paths", "enable_loop_variants", "code_compiles", "loop_closure_renders", "unloopable_renders"]
 
 _st = {}
 
@@ -585,6 +586,39 @@ def _loopvals(n):
     return [dict(index=i, first=(i == 0), last=(i == n - 1), even=(i % 2 == 0), odd=(i % 2 == 1), reverse_index=n - i - 1) for i in range(n)]
 
 
+def run_unloopable(res):
+    """a `% for` over something that cannot be iterated (None; an object whose __iter__ raises) fails like the Python
+    statement, the `% try` around it catches that, and `loop` afterwards means what it meant before the failed loop"""
+    T = _st["Template"]
+
+    class BadIter:
+        def __iter__(self):
+            raise ValueError("no iteration today")
+
+    shapes = [
+        ("then a top-level loop", "% try:\n% for a in bad:\n${loop.index}${a}\n% endfor\n% except (TypeError, ValueError):\ncaught\n% endtry\n% for b in 'xy':\n${loop.index}${loop.parent is None}${b}\n% endfor\n",
+         "caught0Truex1Truey"),
+        ("inside an outer loop", "% for o in 'pq':\n% try:\n% for a in bad:\n${loop.index}${a}\n% endfor\n% except (TypeError, ValueError):\n[${loop.index}${o}${loop.parent is None}]\n% endtry\n<${loop.index}${loop.last}>\n% endfor\n",
+         "[0pTrue]<0False>[1qTrue]<1True>"),
+        ("in a def called from a loop", '<%def name="d()">\\\n% try:\n% for a in bad:\n${loop.index}\n% endfor\n% except (TypeError, ValueError):\nc\n% endtry\n% for z in "k":\n${loop.index}${loop.parent is None}\n% endfor\n</%def>\\\n% for o in "pq":\n${d()}${loop.index}${o}\n% endfor\n',
+         "c0True0pc0True1q"),
+        ("twice, then nested loops", "% for n in (1, 2):\n% try:\n% for a in bad:\n${loop.index}\n% endfor\n% except (TypeError, ValueError):\nc${n}\n% endtry\n% endfor\n% for x in 'ab':\n% for y in 'c':\n${loop.parent.index}${loop.index}${loop.parent.parent is None}\n% endfor\n% endfor\n",
+         "c1c200True10True"),
+    ]
+    for name, text, want in shapes:
+        for label, bad in (("None", None), ("an object whose __iter__ raises", BadIter()), ("an int", 7)):
+            res.evaluations += 1
+            res.count("unloopable_renders")
+            try:
+                got = "".join(T(text).render_unicode(bad=bad).split())
+            except Exception as e:
+                got = "%s: %s" % (type(e).__name__, e)
+            if got != want:
+                res.violate("loop-after-failed-loop", "a %% for over %s inside %% try, %s: template %r rendered %r, expected %r" % (label, name, text, got, want),
+                            witness="% for whose iterable cannot be iterated, caught, then loops that read loop.*")
+        res.nontrivial("unloopable", name)
+
+
 def run_loop_closures(res):
     """`loop` read inside a construct that is written inside the `% for` body but compiled as a closure of the
     enclosing callable (anonymous block, nested def, body of a call with content, def nested in such a body): it is
@@ -701,6 +735,7 @@ def run_case(case):
         run_enable_loop(res)
     elif case["kind"] == "loop_closures":
         run_loop_closures(res)
+        run_unloopable(res)
     elif case["kind"] == "one":
         run_one(case["text"], case["model"], res, case)
     return res
